@@ -47,7 +47,7 @@ def main():
     lock = threading.Lock()
 
     def worker(k):
-        wt, cache = f'/tmp/mslot{k}', f'/tmp/mcache{k}'
+        wt, cache = f'/tmp/mslot{os.getpid()}_{k}', f'/tmp/mcache{os.getpid()}_{k}'
         sh(['git', '-C', '/repo', 'worktree', 'remove', '--force', wt])
         shutil.rmtree(wt, ignore_errors=True)
         r = sh(['git', '-C', '/repo', 'worktree', 'add', '--detach', wt, 'HEAD'])
